@@ -1,6 +1,6 @@
 #!/bin/sh
 # tools/run_all.sh [quick|thorough] : runs every registered check in turn, prints one line per property
-cd /verif
+cd "$(dirname "$0")/.." || exit 3
 TIER="${1:-quick}"
 for p in C01 C02 C03 C04 C05 C06 C07 C08 C09 C10 C11 C12 C13 C14 C15 C16 C17 C18 C19 C20; do
     S=$(date +%s)
